@@ -401,12 +401,24 @@ loop:
 
 // ------------------------------------------------------------------ generation
 
+// addresses of the lines generated so far for the case under construction (reset by c13Gen)
+var c13Prev []uint32
+
 func c13GenLine(t *rapid.T, pairs bool, used map[uint32]bool) gram.TLine {
 	ip := uint32(kit.UniformInt64(t, "ip", 1<<24, 0xdfffffff))
 	for used[ip] {
 		ip++
 	}
+	// target lists name the same host again and again (one line per port): a third of the lines repeat an earlier
+	// address, mostly the one of the line before
+	if len(c13Prev) > 0 && rapid.IntRange(0, 2).Draw(t, "repeat-address") == 0 {
+		ip = c13Prev[len(c13Prev)-1]
+		if rapid.IntRange(0, 3).Draw(t, "repeat-which") == 0 {
+			ip = c13Prev[kit.Uniform(t, "repeat-idx", len(c13Prev))]
+		}
+	}
 	used[ip] = true
+	c13Prev = append(c13Prev, ip)
 	port := int(kit.UniformInt64(t, "port", 1, 65535))
 	ips := gram.U32String(ip)
 	withPort := pairs || rapid.Bool().Draw(t, "stray-port")
@@ -489,6 +501,7 @@ func c13Gen(t *rapid.T, stacks []string) c13Case {
 	c.Pairs = base != "icmp" && rapid.Bool().Draw(t, "pairs")
 	n := rapid.SampledFrom([]int{1, 2, 3, 4, 6, 9, 14}).Draw(t, "nlines")
 	used := map[uint32]bool{}
+	c13Prev = nil
 	var valid []uint32
 	for i := 0; i < n; i++ {
 		l := c13GenLine(t, c.Pairs, used)
@@ -538,7 +551,7 @@ func c13Gen(t *rapid.T, stacks []string) c13Case {
 	return c
 }
 
-const c13Rule = "JSONL target lists of 1..14 lines: valid entries (plain, unknown extra fields, ::ffff: spelling) mixed with offending ones at drawn positions (missing ip, missing port, null, {}, ip null, wrong key case, wrong JSON types, top-level scalars/arrays, bad addresses, port 0 / >65535 / negative / null / huge, truncated or garbage JSON, blank lines, a >64 KiB line, IPv6 addresses); pairs mode or addresses x 1..3 distinct ports; optional --exclude hitting valid entries; ARP cache stage absent / present without gateway (uncached valid entries must become 'no destination MAC' errors) / present with gateway. Oracle: reference line model - per pass every entry before an offending line is handled normally, the offending line gives exactly one error stating an acceptable cause and no probe, then the pass stops or goes on as if the line were absent; neighbours unchanged. non-trivial: an offending line that is not first and a decorator stage (exclusion or cache) present; distinct by case"
+const c13Rule = "JSONL target lists of 1..14 lines (a third of them naming an address of an earlier line again, as one-line-per-port lists do): valid entries (plain, unknown extra fields, ::ffff: spelling) mixed with offending ones at drawn positions (missing ip, missing port, null, {}, ip null, wrong key case, wrong JSON types, top-level scalars/arrays, bad addresses, port 0 / >65535 / negative / null / huge, truncated or garbage JSON, blank lines, a >64 KiB line, IPv6 addresses); pairs mode or addresses x 1..3 distinct ports; optional --exclude hitting valid entries; ARP cache stage absent / present without gateway (uncached valid entries must become 'no destination MAC' errors) / present with gateway. Oracle: reference line model - per pass every entry before an offending line is handled normally, the offending line gives exactly one error stating an acceptable cause and no probe, then the pass stops or goes on as if the line were absent; neighbours unchanged. non-trivial: an offending line that is not first and a decorator stage (exclusion or cache) present; distinct by case"
 
 func TestC13Stack(t *testing.T) {
 	kit.Run(t, kit.Spec[c13Case]{
@@ -640,7 +653,14 @@ func c13CmdCheck(c c13Case) *kit.Verdict {
 		return v.Failf("%s failed as a whole: %v", line, res.Err)
 	}
 	// probes on the wire: per port, the multiset of destination addresses
-	got := map[int]map[uint32]int{}
+	// (keyed by address, in pairs mode by address and port: lists name the same host once per port)
+	got := map[int]map[uint64]int{}
+	akey := func(a uint32, port int) uint64 {
+		if c.Pairs {
+			return uint64(a)<<16 | uint64(port)
+		}
+		return uint64(a)
+	}
 	total := 0
 	for _, s := range res.Sockets {
 		for _, w := range s.Writes {
@@ -661,21 +681,21 @@ func c13CmdCheck(c c13Case) *kit.Verdict {
 				key = 0
 			}
 			if got[key] == nil {
-				got[key] = map[uint32]int{}
+				got[key] = map[uint64]int{}
 			}
 			if c.Pairs {
 				// pairs: keep the port in the address key space by checking it below
 				e := -1
 				for i, l := range c.Lines {
-					if !l.Bad(true) && l.IP == a {
+					if !l.Bad(true) && l.IP == a && l.Port == port {
 						e = i
 					}
 				}
-				if e < 0 || c.Lines[e].Port != port {
+				if e < 0 {
 					return v.Failf("%s: probe to %s:%d which no valid entry denotes", line, gram.U32String(a), port)
 				}
 			}
-			got[key][a]++
+			got[key][akey(a, port)]++
 			total++
 			if c.Cache != "none" && f.Link {
 				want := c13GwMAC.String()
@@ -718,11 +738,11 @@ func c13CmdCheck(c c13Case) *kit.Verdict {
 		}
 	}
 	stops = append(stops, n)
-	expectAddrs := func(k int) map[uint32]int {
-		out := map[uint32]int{}
+	expectAddrs := func(k int) map[uint64]int {
+		out := map[uint64]int{}
 		for i := 0; i < k; i++ {
 			if e := m.expect(i); e.probe {
-				out[e.ip]++
+				out[akey(e.ip, e.port)]++
 			}
 		}
 		return out
@@ -736,7 +756,7 @@ func c13CmdCheck(c c13Case) *kit.Verdict {
 		}
 		return out
 	}
-	sameSet := func(a, b map[uint32]int) bool {
+	sameSet := func(a, b map[uint64]int) bool {
 		if len(a) != len(b) {
 			return false
 		}
@@ -752,7 +772,7 @@ func c13CmdCheck(c c13Case) *kit.Verdict {
 	for _, q := range passes {
 		g := got[q]
 		if g == nil {
-			g = map[uint32]int{}
+			g = map[uint64]int{}
 		}
 		kmin, kmax := -1, -1
 		for _, k := range stops {
@@ -766,7 +786,11 @@ func c13CmdCheck(c c13Case) *kit.Verdict {
 		if kmin < 0 {
 			var gl []string
 			for a, n := range g {
-				gl = append(gl, fmt.Sprintf("%s x%d", gram.U32String(a), n))
+				if c.Pairs {
+					gl = append(gl, fmt.Sprintf("%s:%d x%d", gram.U32String(uint32(a>>16)), a&0xffff, n))
+				} else {
+					gl = append(gl, fmt.Sprintf("%s x%d", gram.U32String(uint32(a)), n))
+				}
 			}
 			sort.Strings(gl)
 			return v.Failf("%s\npass for port %d probed %v: not what the entries before any offending line (or the whole list) denote\nlines: %v\nstderr: %s",
